@@ -10,6 +10,9 @@
 
 #include "common/families.hpp"
 #include "common/refjson.hpp"
+#include <algorithm>
+#include <set>
+
 #include "common/runner.hpp"
 #include "sonic/internal/arch/simd_base.h"
 #include "sonic/internal/arch/simd_quote.h"
@@ -184,6 +187,22 @@ struct QuoteEnv {
   Guarded src{2};
   Guarded dst{4};
 };
+// Which Quote kernel is under test.  Static builds have one.  The runtime-dispatch build compiles both
+// instruction-set variants into one binary but, on this machine, always selects the AVX2 one through the
+// public entry point, so the SSE body of THAT build (which may differ from the static SSE build's body:
+// include order, macro state) would never run; --kernel sse / avx2 calls the namespaces directly.
+static int g_kernel = 0;  // 0 dispatched entry point, 1 sse, 2 avx2
+#ifdef SONIC_DYNAMIC_DISPATCH
+__attribute__((target(SONIC_HASWELL))) static char* quote_avx2(const char* s, size_t n, char* d) { return internal::avx2::Quote(s, n, d); }
+__attribute__((target(SONIC_WESTMERE))) static char* quote_sse(const char* s, size_t n, char* d) { return internal::sse::Quote(s, n, d); }
+#endif
+static inline char* quote_under_test(const char* s, size_t n, char* d) {
+#ifdef SONIC_DYNAMIC_DISPATCH
+  if (g_kernel == 1) return quote_sse(s, n, d);
+  if (g_kernel == 2) return quote_avx2(s, n, d);
+#endif
+  return internal::Quote(s, n, d);
+}
 static void check_quote(QuoteEnv& env, const std::string& s, unsigned e, int fill, vr::Ctx& ctx, std::string* first_out) {
   const size_t n = s.size();
   const size_t cap = 6 * n + 32 + 3;  // what Serialize reserves
@@ -195,7 +214,7 @@ static void check_quote(QuoteEnv& env, const std::string& s, unsigned e, int fil
   char* src = (char*)std::malloc(n);
   if (n) std::memcpy(src, s.data(), n);
   char* dst = (char*)std::malloc(cap);
-  char* end = internal::Quote(src, n, dst);
+  char* end = quote_under_test(src, n, dst);
   std::string why = quote_oracle((const uint8_t*)s.data(), n, dst, (size_t)(end - dst));
   if (!why.empty()) ctx.violation("quote_output", "quote_output", s, "Quote output wrong: %s; got %s", why.c_str(), vr::hex(dst, std::min<size_t>((size_t)(end - dst), 200)).c_str());
   if (first_out) first_out->assign(dst, end);
@@ -208,7 +227,7 @@ static void check_quote(QuoteEnv& env, const std::string& s, unsigned e, int fil
   std::memset(sp + n, fill, e);
   // destination: exactly cap bytes, then the unmapped page
   char* dp = (char*)env.dst.hi() - cap;
-  char* end = internal::Quote((const char*)sp, n, dp);
+  char* end = quote_under_test((const char*)sp, n, dp);
   std::string why = quote_oracle((const uint8_t*)s.data(), n, dp, (size_t)(end - dp));
   if (!why.empty())
     ctx.violation("quote_output", "quote_output", s, "[e=%u fill=%02x] Quote output wrong: %s; got %s", e, fill, why.c_str(), vr::hex(dp, std::min<size_t>((size_t)(end - dp), 200)).c_str());
@@ -271,9 +290,40 @@ int main(int argc, char** argv) {
     f6.chunk = 1 << 18;
     f6.group = "I6";
     f6.rule = "I64toa for every value in -2^(k-1)..2^(k-1)-1";
-    fams = {f1, f2, f3, f4, f5, f6};
+    vr::Family f7;
+    static uint64_t W7;  // static: the check lambda outlives this block
+    W7 = quick ? 4096 : 65536;  // half width of each neighbourhood
+    f7.name = "I7_power_neighbourhoods";
+    f7.count = (64 + 20) * (2 * W7 + 1);
+    f7.chunk = 1 << 14;
+    f7.group = "I7";
+    f7.rule = "for every k: all values 2^k+d and 10^k+d with |d| <= " + std::to_string(W7) + ", as uint64 through U64toa, as the int64 with the same bits and as its negation through I64toa (every word-size and digit-count boundary of both signs), d = -2..2 also through Serialize+Parse";
+    fams = {f1, f2, f3, f4, f5, f6, f7};
     check = [&](const vr::Family& f, uint64_t idx, vr::Ctx& ctx) {
       switch (f.name[1]) {
+        case '7': {
+          uint64_t k = idx / (2 * W7 + 1);
+          int64_t d = (int64_t)(idx % (2 * W7 + 1)) - (int64_t)W7;
+          uint64_t base;
+          if (k < 64)
+            base = (uint64_t)1 << k;
+          else {
+            base = 1;
+            for (uint64_t i = 0; i < k - 64; i++) base *= 10;
+          }
+          uint64_t v = base + (uint64_t)d;  // wraps for tiny bases: still a legitimate 64-bit pattern
+          if (ctx.want_sample) ctx.sample(std::to_string(v) + " and -" + std::to_string(v));
+          ctx.nontriv();
+          check_u64(v, ctx, "neighbourhood");
+          check_i64(v, ctx);
+          check_i64((uint64_t)0 - v, ctx);
+          if (d >= -2 && d <= 2) {
+            check_int_roundtrip(v, false, ctx);
+            check_int_roundtrip(v, true, ctx);
+            check_int_roundtrip((uint64_t)0 - v, true, ctx);
+          }
+          break;
+        }
         case '1':
           if (ctx.want_sample) ctx.sample(std::to_string(idx));
           ctx.nontriv();
@@ -355,6 +405,16 @@ int main(int argc, char** argv) {
       }
     };
   } else if (prop == "C09") {
+    {
+      const std::string k = args.get("kernel");
+      g_kernel = k == "sse" ? 1 : k == "avx2" ? 2 : 0;
+#ifndef SONIC_DYNAMIC_DISPATCH
+      if (g_kernel) {
+        fprintf(stderr, "kernels: --kernel needs the runtime-dispatch build\n");
+        return 2;
+      }
+#endif
+    }
     static const uint8_t Rset[] = {0x00, 0x1f, '"', '\\', 0x20, 0x7f, 0x80, 0xff, '\n', 0x08, '/', 0x21, 0x0c, '\t', '\r', 0x01};
     const unsigned NR = quick ? 8 : 16;
     const unsigned NMAX = 101;  // n in 0..100
@@ -460,9 +520,37 @@ int main(int argc, char** argv) {
     m3.chunk = 256;
     m3.group = "M3";
     m3.rule = "objects whose member names differ from the probe key at every index / in length: FindMember(view), FindMember(ptr,len), HasMember, operator[] with and without the lookup map agree with byte equality";
-    fams = {m1, m2, m3};
+    // key pool for the lookup-map order: lengths around the word / vector sizes, one distinguished byte at the
+    // positions where a word- or block-wise comparison changes regime, with sign- and order-sensitive values
+    static std::vector<std::string> pool;
+    if (pool.empty()) {
+      std::set<std::string> seen;
+      for (unsigned len : {0u, 1u, 2u, 3u, 7u, 8u, 9u, 15u, 16u, 17u, 31u, 32u, 33u, 40u}) {
+        std::string base(len, 'm');
+        if (seen.insert(base).second) pool.push_back(base);
+        for (unsigned pos : {0u, 1u, 6u, 7u, 8u, 15u, 16u, 31u, 32u})
+          for (unsigned char v : {(unsigned char)0x00, (unsigned char)0x01, (unsigned char)'a', (unsigned char)'z', (unsigned char)0x7f, (unsigned char)0x80, (unsigned char)0xff}) {
+            if (pos >= len) continue;
+            std::string k = base;
+            k[pos] = (char)v;
+            if (seen.insert(k).second) pool.push_back(k);
+          }
+      }
+    }
+    vr::Family m4, m5;
+    m4.name = "M4_map_order_is_lexicographic";
+    m4.count = (uint64_t)pool.size() * pool.size();
+    m4.chunk = 4096;
+    m4.group = "M4";
+    m4.rule = "all ordered pairs over " + std::to_string(pool.size()) + " keys (lengths 0..40 around 8/16/32, one byte of value 00/01/a/z/7f/80/ff at positions 0,1,6,7,8,15,16,31,32): the comparator of the optional lookup map must be the lexicographic byte order (sign of memcmp on the common prefix, then length), hence a strict weak order consistent with byte equality";
+    m5.name = "M5_map_lookup_mixed_keys";
+    m5.count = (uint64_t)pool.size() * 8;
+    m5.chunk = 16;
+    m5.group = "M5";
+    m5.rule = "objects of 12 members whose names are pool[i], pool[i+s], ... for 8 strides s (mixed lengths and first words, 8 insertion orders): after CreateMap every member name is found at its own index by FindMember(view / ptr,len), HasMember, operator[]; every other pool key misses; the same without the map";
+    fams = {m1, m2, m3, m4, m5};
 #ifdef SONIC_DYNAMIC_DISPATCH
-    fams = {m3};
+    fams = {m3, m5};
 #endif
     check = [&, NL, NE, NP](const vr::Family& f, uint64_t idx, vr::Ctx& ctx) {
       auto build = [&](unsigned len, unsigned diff, unsigned pi, uint8_t* a, uint8_t* b) {
@@ -558,6 +646,72 @@ int main(int argc, char** argv) {
         if (ctx.want_sample) ctx.sample(desc);
         ctx.nontriv();
         verdict(a, b, len, desc);
+        return;
+      }
+      if (f.name[1] == '4') {
+#ifndef SONIC_DYNAMIC_DISPATCH
+        const std::string& a = pool[idx / pool.size()];
+        const std::string& b = pool[idx % pool.size()];
+        ctx.eval();
+        ctx.nontriv();
+        if (ctx.want_sample) ctx.sample(vr::hex(a) + " < " + vr::hex(b));
+        // exact-size copies so that an over-read is visible under ASan
+        char* pa = (char*)std::malloc(a.size() + 1);
+        char* pb = (char*)std::malloc(b.size() + 1);
+        std::memcpy(pa, a.data(), a.size());
+        std::memcpy(pb, b.data(), b.size());
+        pa[a.size()] = 0x11;
+        pb[b.size()] = 0x22;
+        typename Document::NodeType::Less less;
+        bool got = less(StringView(pa, a.size()), StringView(pb, b.size()));
+        int c = std::memcmp(a.data(), b.data(), std::min(a.size(), b.size()));
+        bool want = c < 0 || (c == 0 && a.size() < b.size());
+        std::free(pa);
+        std::free(pb);
+        if (got != want) ctx.violation("map_order", "map_order_not_lexicographic", vr::hex(a) + " vs " + vr::hex(b), "lookup-map comparator says %s < %s is %d, byte order says %d", vr::hex(a).c_str(), vr::hex(b).c_str(), (int)got, (int)want);
+#else
+        (void)idx;
+        ctx.skip();
+#endif
+        return;
+      }
+      if (f.name[1] == '5') {
+        static const unsigned strides[8] = {1, 2, 3, 5, 7, 11, 13, 17};
+        unsigned st = strides[idx % 8];
+        size_t i0 = idx / 8;
+        std::vector<size_t> ks;
+        for (unsigned j = 0; j < 12; j++) {
+          size_t k = (i0 + (size_t)j * st) % pool.size();
+          if (std::find(ks.begin(), ks.end(), k) == ks.end()) ks.push_back(k);
+        }
+        ctx.eval();
+        ctx.nontriv();
+        if (ctx.want_sample) ctx.sample("start " + std::to_string(i0) + " stride " + std::to_string(st));
+        Document doc;
+        auto& al = doc.GetAllocator();
+        doc.SetObject();
+        for (size_t j = 0; j < ks.size(); j++) doc.AddMember(pool[ks[j]], Node((int64_t)j), al, true);
+        for (int pass = 0; pass < 2; pass++) {
+          if (pass == 1) doc.CreateMap(al);
+          for (size_t q = 0; q < pool.size(); q++) {
+            const std::string& pk = pool[q];
+            auto at = std::find(ks.begin(), ks.end(), q);
+            int ex = at == ks.end() ? -1 : (int)(at - ks.begin());
+            std::string buf = "\x7f" + pk + "\x7f";  // the probe is a slice of a longer buffer
+            auto it1 = doc.FindMember(StringView(buf.data() + 1, pk.size()));
+            auto it2 = doc.FindMember(buf.data() + 1, pk.size());
+            bool has = doc.HasMember(StringView(buf.data() + 1, pk.size()));
+            int g1 = it1 == doc.MemberEnd() ? -1 : (int)(it1 - doc.MemberBegin());
+            int g2 = it2 == doc.MemberEnd() ? -1 : (int)(it2 - doc.MemberBegin());
+            const Node& v = static_cast<const Document&>(doc)[StringView(buf.data() + 1, pk.size())];
+            bool vok = ex < 0 ? v.IsNull() : (v.IsInt64() && v.GetInt64() == ex);
+            if (g1 != ex || g2 != ex || has != (ex >= 0) || !vok) {
+              ctx.violation("findmember", pass ? "findmember_map_mixed_keys" : "findmember_linear_mixed_keys", pk, "start %zu stride %u pass=%d key %s: FindMember(view)->%d FindMember(ptr,len)->%d HasMember=%d operator[] %s; expected member %d", i0, st, pass,
+                            vr::hex(pk).c_str(), g1, g2, (int)has, vok ? "ok" : "wrong", ex);
+              return;
+            }
+          }
+        }
         return;
       }
       {
